@@ -5,8 +5,20 @@
    nothing else changes; an undeclared slot, a slot passed twice and a missing component file are load
    errors naming the component; a use evaluates its arguments in the caller's scope, binds them in a
    fresh scope on top of it and renders the component's program there; a placeholder shows the passed
-   body or nothing.  The end-to-end output of pages with several uses (inside loops and conditionals)
-   is decided on generated trees against the per-use substitution oracle. *)
+   body or nothing.
+   EVALUATION, END TO END (Proofs/TemplateRefine.v, Proofs/LoadedRender.v): the big-step semantics of
+   Spec/Template.v has component uses (arguments in key order, each evaluated at the place of use and
+   bound in a fresh scope on top of the scopes of that place - the surrounding variables stay
+   visible -, the component file rendered there, the caller's scopes as they were) and slot
+   placeholders (the passed body rendered where the placeholder stands, or nothing); the refinement
+   theorem covers them, so for EVERY page tree with any number of uses at any depth - in loops, in
+   conditionals, in slot bodies, the same component several times with different arguments and
+   bodies - Template.String on a loaded template whose statements are those of the tree (up to
+   lines) is what the semantics gives.  Every use is independent because the semantics is
+   compositional: a use is a node with its own arguments and its own body.
+   Not a theorem: that the loader's per-use substitution (apply_component over ALL slots of a use)
+   produces those statements for every component file - the step theorems above describe one slot;
+   the example below discharges it by computation for one tree, the run for generated trees. *)
 From Coq Require Import String.
 From TW Require Import Bytes GenToken Lexer Ast Parser Values Builtins Eval Render Api Layouts.
 Open Scope N_scope.
@@ -84,3 +96,90 @@ Theorem C07_placeholder_shows_the_passed_body cx f en ln n b :
   (forall v, value_string (VSlot v) = value_string v) /\ value_string (VSlot VNil) = Some [].
 Proof. exact (slot_shows_the_passed_body cx f en ln n b). Qed.
 Print Assumptions C07_placeholder_shows_the_passed_body.
+
+(* ---- evaluation, end to end *)
+From TW Require Import Expr Template ExprSem CleanValues TemplateRefine LineIrrelevance LoadedRender.
+
+Theorem C07_a_use_in_the_specification f sc n cid args body :
+  run_node model_call_spec (S f) sc (NComponent n cid args body) =
+  match (match args with
+         | Some ps => bind_spec model_call_spec sc (asort ps) ([] :: sc)
+         | None => Some (Some ([] :: sc))
+         end) with
+  | None => TUnprintable
+  | Some None => TFail
+  | Some (Some sc1) =>
+    match run_nodes model_call_spec f sc1 body with
+    | TOk o SigNormal sc2 => TOk o SigNormal (tl sc2)
+    | TOk _ _ _ => TUnprintable
+    | r => r
+    end
+  end.
+Proof. exact (rn_component f sc n cid args body). Qed.
+
+Theorem C07_statements_with_components_refine_the_specification fs sc n :
+  env_clean sc = true -> node_ok n ->
+  exists K, forall fm, (K <= fm)%nat -> Rs (eval_stmt cx0 fm sc (cnode n)) (run_node model_call_spec fs sc n).
+Proof. exact (statement_refines_specification fs sc n). Qed.
+Print Assumptions C07_statements_with_components_refine_the_specification.
+
+Theorem C07_loaded_page_renders_as_specified cfg tpl name ss P fsp gd (data : list (bytes * value)) :
+  alookup name tpl = Some ss ->
+  map strip_s ss = map strip_s (map cnode P) -> nodes_ok P ->
+  env_from_map gd = EnvOk [data] ->
+  forallb (fun kv : bytes * value => clean (snd kv)) data = true ->
+  exists K, (K <= eval_fuel)%nat ->
+    match run_nodes model_call_spec fsp [data] P with
+    | TOk out SigNormal _ => template_string cx0 cfg tpl name gd = StrOk out
+    | TOk _ _ _ => True
+    | TFail => exists e, template_string cx0 cfg tpl name gd = StrErr e
+    | TNoFuel | TUnprintable => True
+    end.
+Proof. exact (loaded_template_renders cfg tpl name ss P fsp gd data). Qed.
+Print Assumptions C07_loaded_page_renders_as_specified.
+
+Theorem C07_loaded_page_renders_whenever_it_answers cfg tpl name ss P fsp gd (data : list (bytes * value)) :
+  alookup name tpl = Some ss ->
+  map strip_s ss = map strip_s (map cnode P) -> nodes_ok P ->
+  env_from_map gd = EnvOk [data] ->
+  forallb (fun kv : bytes * value => clean (snd kv)) data = true ->
+  template_string cx0 cfg tpl name gd <> StrOutOfFuel ->
+  match run_nodes model_call_spec fsp [data] P with
+  | TOk out SigNormal _ => template_string cx0 cfg tpl name gd = StrOk out
+  | TOk _ _ _ => True
+  | TFail => exists e, template_string cx0 cfg tpl name gd = StrErr e
+  | TNoFuel | TUnprintable => True
+  end.
+Proof. exact (loaded_template_renders_when_it_answers cfg tpl name ss P fsp gd data). Qed.
+Print Assumptions C07_loaded_page_renders_whenever_it_answers.
+
+(* non-vacuity: one component used in a loop with the loop variable and an outer variable as
+   arguments and a slot body that reads the loop variable, then once more with other arguments
+   and no slot body; the loaded page is the tree P7 up to lines, the semantics gives the output,
+   and so does the model *)
+Definition fs7 : fsys :=
+  [(bs "templates/home.tw.html", FFile (bs "@each(i in [1, 2])@component('~card', {v: i, t: title})@slot<b>{{ i }}</b>@end@end@end|@component('~card', {v: 9, t: ""x""})"));
+   (bs "templates/components/card.tw.html", FFile (bs "[{{ t }}:{{ v }}@slot]"))].
+Definition card7 (slot : option (list tnode)) : list tnode :=
+  [NText (bs "["); NPrint (XVar (bs "t")); NText (bs ":"); NPrint (XVar (bs "v")); NSlot [] slot; NText (bs "]")].
+Definition P7 : list tnode :=
+  [NEach (bs "i") (XArr [XInt 1; XInt 2])
+     [NComponent (bs "components/card") 0 (Some [(bs "v", XVar (bs "i")); (bs "t", XVar (bs "title"))])
+        (card7 (Some [NText (bs "<b>"); NPrint (XVar (bs "i")); NText (bs "</b>")]))] None;
+   NText (bs "|");
+   NComponent (bs "components/card") 1 (Some [(bs "v", XInt 9); (bs "t", XStr (bs "x") true)]) (card7 None)].
+Definition gd7 : list (bytes * goval) := [(bs "title", GStr (bs "T"))].
+
+Example C07_two_uses_example :
+  exists tpl ss,
+    new_template fs7 default_config = LOk tpl /\ alookup (bs "home") tpl = Some ss /\
+    map strip_s ss = map strip_s (map cnode P7) /\ nodes_ok P7 /\
+    run_nodes model_call_spec 40 [[(bs "title", VStr (bs "T"))]] P7 =
+      TOk (bs "[T:1<b>1</b>][T:2<b>2</b>]|[x:9]") SigNormal [[(bs "title", VStr (bs "T"))]] /\
+    template_string cx0 default_config tpl (bs "home") gd7 = StrOk (bs "[T:1<b>1</b>][T:2<b>2</b>]|[x:9]").
+Proof.
+  eexists. eexists.
+  split; [vm_compute; reflexivity|]. split; [vm_compute; reflexivity|].
+  split; [vm_compute; reflexivity|]. split; [cbn; repeat split; lia|].
+  split; vm_compute; reflexivity.
+Qed.
